@@ -428,6 +428,9 @@ def slc(x, lo, hi):
         if isinstance(n0, int) and not isinstance(n0, bool) and all(v is None or (isinstance(v, int) and not isinstance(v, bool)) for v in (lo0, hi0, lo, hi)):
             r = range(n0)[lo0:hi0][lo:hi]  # both slices against the known length of the base
             return slc(b0, r.start, r.stop) if len(r) else (b"" if tyof(x) == BYTES else slc(b0, 0, 0))
+        if hi is None and _nonneg(lo) and lo is not None and (lo0 is None or _nonneg(lo0)) and hi0 is not None:
+            # (b[lo0:hi0])[lo:] is b[lo0+lo:hi0] for non-negative lo0, lo and any hi0 (negative = from the end)
+            return slc(b0, add([lo0 if lo0 is not None else 0, lo]), hi0)
         # (b[lo0:])[lo:hi] with non-negative bounds
         if hi0 is None and _nonneg(lo0) and _nonneg(lo) and (hi is None or _nonneg(hi)):
             nlo = add([lo0, lo if lo is not None else 0])
